@@ -201,6 +201,11 @@ def commit(ctx):
             elif cancelled is False and nonnull is False:
                 ok = "modify" not in seq and "delete" not in seq
                 ctx.ob(rid, ok, f.where, "null handle commits nothing (%s)" % tag, "" if ok else str(seq), fn=f.label, inst=f.qname)
+            elif "modify" not in seq:
+                # the copy is dropped although neither 'm_cancelled' nor 'ptr == nullptr' is established on this path
+                ctx.ob(rid, False, f.where, "a write handle is discarded without publishing only when it was cancelled (or is null)",
+                       "a path skips m_data.modify under another condition (%s, events %s): a normally released handle can lose "
+                       "its update" % (tag, seq), fn=f.label, inst=f.qname)
         ok = any(k[0] is True for k in seen) and any(k[0] is False and k[1] is True for k in seen)
         ctx.ob(rid, ok, f.where, "the deleter distinguishes cancelled and live handles", "" if ok else str(seen), fn=f.label, inst=f.qname)
         # the installed pointer owns the private copy, and the lambda stores exactly it
